@@ -53,6 +53,45 @@ def build_cases(rng, tier):
         r = rng.fork("small%d" % i)
         cases.append(engine.make_case("s%d" % i, r, flex_opts=r.pick(TABLE_OPTS),
                                       ninputs=5 if tier == "quick" else 8))
+    # POSIX / AT&T precedence of the counted repeat (%option posix-compat): {n,m} applies to the whole series before it
+    import rulesets
+    for i in range(24 if tier == "quick" else 300):
+        r = rng.fork("posix%d" % i)
+        # (posix-compat switches flex's own extensions off: no (?flags: ) groups, no {-} / {+} class operations)
+        def simple(depth):
+            k = r.pick(['c', 'c', 'str', 'cls', 'cat', 'alt', 'plus', 'star', 'opt', 'reprange'] if depth > 0 else ['c', 'str', 'cls'])
+            if k == 'c':
+                return ('c', r.pick([97, 98, 99, 120, 121, 122, 48, 32]))
+            if k == 'str':
+                return ('str', [r.pick([97, 98, 99, 48]) for _ in range(r.rng(2, 3))])
+            if k == 'cls':
+                lo_ = r.pick([97, 120, 48])
+                return ('cls', ('set', r.chance(20), [('rg', lo_, lo_ + r.rng(0, 2)), ('ch', r.pick([10, 65, 57]))]))
+            if k in ('cat', 'alt'):
+                return (k, simple(depth - 1), simple(depth - 1))
+            if k == 'reprange':
+                a_ = r.rng(1, 2)
+                return ('reprange', simple(depth - 1), a_, a_ + r.rng(0, 2))
+            return (k, simple(depth - 1))
+        rules_ = []
+        for _ in range(r.rng(1, 4)):
+            h = simple(r.pick([1, 2, 2]))
+            tries = 0
+            while patgen.nullable(h) and tries < 6:
+                h = simple(2)
+                tries += 1
+            rules_.append({'head': h, 'bol': r.chance(15), 'scs': None, 'trail': None})
+        prog = {'csize': 256, 'caseins': False, 'scs': [], 'rules': rules_}
+        prog['posix'] = True
+        lo = r.pick([0, 0, 1, 2])
+        hi = lo + r.rng(1, 3)
+        body = ('cat', ('c', 97), ('c', 98)) if r.chance(60) else ('cls', ('set', False, [('ch', 120), ('ch', 121)]))
+        rep = r.pick([('reprange', body, lo, hi), ('rep', body, hi), ('repmin', body, max(lo, 1)), ('reprange', body, 0, hi)])
+        prog['rules'].insert(r.below(len(prog['rules']) + 1),
+                             {'head': ('cat', rep, ('c', r.pick([99, 122]))), 'bol': False, 'scs': None, 'trail': None})
+        c = engine.make_case("p%d" % i, r, prog=prog, flex_opts=r.pick(TABLE_OPTS), extra_options=["posix-compat"], ninputs=4)
+        c['inputs'].append([97, 98, 97, 98, 99, 32, 97, 98, 97, 98, 97, 98, 99, 32, 120, 121, 122, 99, 10])
+        cases.append(c)
     kinds = ['keywords', 'classes', 'conditions', 'dfa', 'nfa']
     reps = 1 if tier == "quick" else 6
     for k in kinds:
